@@ -12,6 +12,7 @@ func main() {
 	Main(map[string]CmdFn{
 		"gen":   func(a []string) int { return RunGen(gens, a) },
 		"probe": probe,
+		"one":   one,
 		"c03":   c03,
 		"c14":   c14,
 		"c10":   c10,
@@ -36,4 +37,32 @@ func probe(args []string) int {
 	}
 	_ = os.Stdout
 	return 0
+}
+
+// one: run the history given as JSON (first non-flag argument) `--n` times and write the model-comparison shard (development /
+// replay aid):  vh-proxy one --out DIR --n 20 '<spec json>'
+func one(args []string) int {
+	var rest []string
+	n := 10
+	for i := 0; i < len(args); i++ {
+		if args[i] == "--n" && i+1 < len(args) {
+			fmt.Sscan(args[i+1], &n)
+			i++
+			continue
+		}
+		rest = append(rest, args[i])
+	}
+	specJSON := rest[len(rest)-1]
+	run := NewRun("ONE", rest[:len(rest)-1])
+	sp := &Spec{}
+	if err := json.Unmarshal([]byte(specJSON), sp); err != nil {
+		fmt.Println(err)
+		return 2
+	}
+	var jobs []*histJob
+	for i := 0; i < n; i++ {
+		jobs = append(jobs, &histJob{id: 900000 + i, spec: sp})
+	}
+	runAll(jobs, 50)
+	return finishProxy(run, jobs, c03Finder, plainSpec)
 }
